@@ -167,6 +167,29 @@ void sx_main(void)
 		sx_hb_enable();
 	owner_tid = sx_tid();
 	iv_init();
+	if (sx_opt("regfail", 0)) {
+		/* C07: a registration that reports failure leaves the loop exactly as it was */
+		struct iv_event *ev = malloc(sizeof(*ev));
+		int ret, save = k_fd_limit;
+
+		IV_EVENT_INIT(ev);
+		ev->handler = handler;
+		ev->cookie = &E[0];
+		k_fd_limit = 3;		/* no descriptor can be created now (EMFILE) */
+		ret = iv_event_register(ev);
+		k_fd_limit = save;
+		sx_assert(ret != 0, "harness.event-register-did-not-fail");
+		sx_cover("C07.event-register-fails");
+		free(ev);
+		k_idle_hook = NULL;
+		/* nothing is registered: iv_main must return at once instead of sleeping for ever */
+		iv_main();
+		sx_cover("C07.loop-returns-after-failed-registration");
+		iv_deinit();
+		sx_assert(k_count_open(1) == 0, "C18.descriptor-leak-after-deinit");
+		sx_leak_check(0);
+		return;
+	}
 	for (i = 0; i < nE; i++) {
 		E[i].id = i;
 		ev_register(&E[i]);
